@@ -217,6 +217,34 @@ Definition cdec (id : N) (w : value) : option value :=
 
 Definition encode_t := encode_typed cenc.
 Definition decode_t := decode_typed cdec.
+(* The verdict class ErrValueTooLarge: Stream.Kind reports it for the value at
+   the top level when the declared size exceeds what is left of the (limited)
+   input, and willRead reports it when the bytes of a long-form size are not
+   there.  The error is sticky (s.kinderr): every decoder starts with Kind, so
+   whatever the target type is, an input whose outer header promises more than
+   there is fails with this class - also for Transaction/Block, whose DecodeRLP
+   peeks Kind() first and ignores its error. *)
+Definition too_large (b : bytes) : bool :=
+  match b with
+  | [] => false
+  | h :: t =>
+    let long (ll : N) :=
+      if len t <? ll then true
+      else match firstn (N.to_nat ll) t with
+           | [] => false
+           | (b0 :: _) as lb =>
+             if (b0 =? 0) && negb (ll =? 1) then false          (* ErrCanonSize *)
+             else let n := of_be lb in
+                  if n <? 56 then false else len t - ll <? n
+           end in
+    if negb (byte_ok h) then false
+    else if h <? 128 then false
+    else if h <? 184 then len t <? h - 128
+    else if h <? 192 then long (h - 183)
+    else if h <? 248 then len t <? h - 192
+    else long (h - 247)
+  end.
+
 (* Stream.Decode on a reader limited to the input: the first value only *)
 Definition decode_stream_t (s : schema) (b : bytes) : option (value * bytes) :=
   if negb (bytes_ok b) then None else
@@ -260,7 +288,11 @@ Inductive case :=
 (* rlp.NewStream(reader(b), len b).Decode(&T) - what p2p Msg.Decode and the
    database readers do: one value is read, trailing bytes are left unread.
    Some (b', n) = accepted, re-encodes to b', n bytes unread *)
-| CStream (ty : N) (b : bytes) (r : option (bytes * N)).
+| CStream (ty : N) (b : bytes) (r : option (bytes * N))
+(* rejected by rlp.DecodeBytes (stream = false) or by a Stream limited to the
+   input (stream = true); cls = the error was ErrValueTooLarge ("value size
+   exceeds available input length") *)
+| CRej (ty : N) (stream : bool) (b : bytes) (cls : bool).
 
 Definition opt_bytes_eqb (a b : option bytes) : bool :=
   match a, b with
@@ -304,6 +336,14 @@ Definition case_ok (t : table) (c : case) : bool :=
         (len rest =? n) && opt_bytes_eqb (encode_t s v) (Some b')
       | _, _ => false
       end
+    end
+  | CRej ty stream b cls =>
+    match lookup t ty with
+    | None => false
+    | Some s =>
+      (if stream then match decode_stream_t s b with None => true | Some _ => false end
+       else match decode_t s b with None => true | Some _ => false end)
+      && Bool.eqb (too_large b) cls
     end
   end.
 
